@@ -64,11 +64,20 @@ struct Em : public Callback::Emitter
   void sigB(PARAMS_B) {}
   void fire(int s, int x) { (void)x; if(s == 0) emit(&Em::sigA CARGS_A); else emit(&Em::sigB CARGS_B); }
 };
+// When both signals have the same parameter list, the SAME slots s1/s2 serve both of them (one slot connected to two signals of
+// one emitter); the slot cannot know then which signal invoked it and reports -1: the model takes the emission in progress.
+#if VF_ARITY_A == VF_ARITY_B
+#define VF_SHARED_SLOTS 1
+#define SLOT_SIG -1
+#else
+#define VF_SHARED_SLOTS 0
+#define SLOT_SIG 0
+#endif
 struct Li : public Callback::Listener
 {
   int id;
-  void s1(PARAMS_A) { onSlot(this, 0, 0, FIRST_A); }
-  void s2(PARAMS_A) { onSlot(this, 0, 1, FIRST_A); }
+  void s1(PARAMS_A) { onSlot(this, SLOT_SIG, 0, FIRST_A); }
+  void s2(PARAMS_A) { onSlot(this, SLOT_SIG, 1, FIRST_A); }
   void t1(PARAMS_B) { onSlot(this, 1, 0, FIRST_B); }
   void t2(PARAMS_B) { onSlot(this, 1, 1, FIRST_B); }
 };
@@ -130,14 +139,22 @@ struct World
   {
     Conn c = {(int)conns.size(), a.e, a.s, a.l, a.k, true}; conns.push_back(c);
     if(a.s == 0) { if(a.k == 0) LIB(Callback::connect(em[a.e], &Em::sigA, li[a.l], &Li::s1)); else LIB(Callback::connect(em[a.e], &Em::sigA, li[a.l], &Li::s2)); }
+#if VF_SHARED_SLOTS
+    else { if(a.k == 0) LIB(Callback::connect(em[a.e], &Em::sigB, li[a.l], &Li::s1)); else LIB(Callback::connect(em[a.e], &Em::sigB, li[a.l], &Li::s2)); }
+#else
     else { if(a.k == 0) LIB(Callback::connect(em[a.e], &Em::sigB, li[a.l], &Li::t1)); else LIB(Callback::connect(em[a.e], &Em::sigB, li[a.l], &Li::t2)); }
+#endif
   }
   void doDisconnect(const Act& a)
   {
     // the library removes the oldest matching connection
     for(size_t i = 0; i < conns.size(); ++i) if(conns[i].live && conns[i].e == a.e && conns[i].s == a.s && conns[i].l == a.l && conns[i].k == a.k) { conns[i].live = false; break; }
     if(a.s == 0) { if(a.k == 0) LIB(Callback::disconnect(em[a.e], &Em::sigA, li[a.l], &Li::s1)); else LIB(Callback::disconnect(em[a.e], &Em::sigA, li[a.l], &Li::s2)); }
+#if VF_SHARED_SLOTS
+    else { if(a.k == 0) LIB(Callback::disconnect(em[a.e], &Em::sigB, li[a.l], &Li::s1)); else LIB(Callback::disconnect(em[a.e], &Em::sigB, li[a.l], &Li::s2)); }
+#else
     else { if(a.k == 0) LIB(Callback::disconnect(em[a.e], &Em::sigB, li[a.l], &Li::t1)); else LIB(Callback::disconnect(em[a.e], &Em::sigB, li[a.l], &Li::t2)); }
+#endif
   }
   void doEmit(int e, int s, bool probe)
   {
@@ -187,6 +204,7 @@ struct World
     if(failed) return;
     if(stack.empty()) { fail("C12:invocation-outside-emission", vf::fmt("L%d.slot%d invoked although no emission is in progress", lid, k)); return; }
     Frame& f = stack.back();
+    if(sig < 0) sig = f.s;
     if(f.dead) { fail("C12:invoked-after-emitter-destroyed", vf::fmt("L%d.slot%d invoked by an emission whose emitter E%d has been destroyed", lid, k, f.e)); return; }
     if(sig != f.s || ((sig == 1 ? VF_ARITY_B : VF_ARITY_A) > 0 && arg != f.arg)) { fail("C12:wrong-signal", vf::fmt("L%d.slot%d invoked for signal %d with argument %d, emission in progress is E%d.sig%c(%d)", lid, k, sig, arg, f.e, 'A' + f.s, f.arg)); return; }
     // next expected: first snapshot entry at or after the cursor that is still connected
@@ -252,6 +270,17 @@ struct World
       }
       for(size_t i = 0; i < conns.size(); ++i) if(conns[i].live && conns[i].l == l) ++want;
       if(have != want) { fail("C12:bookkeeping-listener", vf::fmt("L%d lists %d connections, %d are live", l, (int)have, (int)want)); return; }
+      // ... and they name the right signals: the listener's destructor finds the emitter's entries through these records
+      for(int e = 0; e < cfg.NE; ++e) if(em[e]) for(int s = 0; s < cfg.NS; ++s)
+      {
+        Callback::MemberFuncPtr key = s == 0 ? Callback::MemberFuncPtr(&Em::sigA) : Callback::MemberFuncPtr(&Em::sigB);
+        size_t haveS = 0, wantS = 0;
+        Map<Callback::Emitter*, List<Callback::Listener::Signal> >::Iterator it = li[l]->slotData.find((Callback::Emitter*)em[e]);
+        if(it != li[l]->slotData.end())
+          for(List<Callback::Listener::Signal>::Iterator j = it->begin(); j != it->end(); ++j) if(j->signal == key) ++haveS;
+        for(size_t i = 0; i < conns.size(); ++i) if(conns[i].live && conns[i].l == l && conns[i].e == e && conns[i].s == s) ++wantS;
+        if(haveS != wantS) { fail("C12:bookkeeping-listener", vf::fmt("L%d lists %d connections to E%d.sig%c, %d are live", l, (int)haveS, e, 'A' + s, (int)wantS)); return; }
+      }
     }
 #endif
   }
